@@ -10,11 +10,13 @@ import Nebula.Model.P256
 namespace Nebula.P256Twin
 open Nebula.Der
 
-/-- base-256 digits of `n`, most significant first, no leading zero (`[]` for 0). -/
-def natBytes (n : Nat) : Bytes :=
-  if h : n = 0 then [] else natBytes (n / 256) ++ [UInt8.ofNat (n % 256)]
-termination_by n
-decreasing_by omega
+/-- base-256 digits of `n`, most significant first, no leading zero (`[]` for 0); `fuel` bounds the number of
+digits (structural recursion, so that closed terms evaluate everywhere). -/
+def natBytesAux : Nat → Nat → Bytes
+  | 0, _ => []
+  | fuel + 1, n => if n = 0 then [] else natBytesAux fuel (n / 256) ++ [UInt8.ofNat (n % 256)]
+
+def natBytes (n : Nat) : Bytes := natBytesAux n n
 
 /-- DER INTEGER content octets of a non-negative number: minimal, with a 0x00 pad exactly when the top bit of
 the first digit is set (`[0]` for 0). -/
